@@ -92,6 +92,18 @@ func (c *qctx) errf(n ast.Node, format string, a ...any) error {
 	return fmt.Errorf("%s: %s", c.fset.Position(n.Pos()), fmt.Sprintf(format, a...))
 }
 
+func isSmallNat(s string) bool {
+	if s == "" || len(s) > 3 {
+		return false
+	}
+	for _, ch := range s {
+		if ch < '0' || ch > '9' {
+			return false
+		}
+	}
+	return true
+}
+
 func glist(xs []string) string { return "[" + strings.Join(xs, "; ") + "]" }
 
 // ---------------------------------------------------------------- net/queue
@@ -173,6 +185,9 @@ func (c *qctx) stmt(s ast.Stmt) (string, error) {
 		switch {
 		case x.Init == nil && es(x.Cond) == r+".closed":
 			kind = "SIfClosed"
+		case x.Init == nil && strings.HasPrefix(es(x.Cond), r+".queue.Len() == ") && isSmallNat(strings.TrimPrefix(es(x.Cond), r+".queue.Len() == ")):
+			// if p.queue.Len() == n { .. }: the machine branches on the length of the list
+			kind = "SIfLen " + strings.TrimPrefix(es(x.Cond), r+".queue.Len() == ")
 		case x.Init != nil:
 			as, ok := x.Init.(*ast.AssignStmt)
 			if !ok || as.Tok != token.DEFINE || len(as.Lhs) != 1 || ess(as.Rhs) != r+".queue.Front()" {
@@ -509,7 +524,7 @@ func genPlayerListSkeleton(repo string, out *bytes.Buffer) error {
 func genQueue(repo string) (string, error) {
 	var out bytes.Buffer
 	out.WriteString("(* GENERATED by tools/gotrans from net/queue/queue.go, server/playerlist.go and net/packet/*.go - do not edit *)\n")
-	out.WriteString("From Coq Require Import List.\nFrom GoMC Require Import Model.C20_syntax.\nImport ListNotations.\n\n")
+	out.WriteString("From Coq Require Import List String.\nFrom GoMC Require Import Model.C20_syntax.\nImport ListNotations.\n\n")
 	if err := genQueueSkeleton(repo, &out); err != nil {
 		return "", err
 	}
@@ -520,6 +535,9 @@ func genQueue(repo string) (string, error) {
 		return "", err
 	}
 	if err := genCacheSkeleton(repo, &out); err != nil {
+		return "", err
+	}
+	if err := genLockTable(repo, &out); err != nil {
 		return "", err
 	}
 	return out.String(), nil
